@@ -19,13 +19,18 @@ from sa import core  # noqa: E402
 
 
 def load_rules(prop=None):
+  """Imports rules/cNN.py (the property's main module) and any extension
+  modules rules/cNN_*.py (more rules of the same property)."""
   names = sorted(f[:-3] for f in os.listdir(os.path.join(HERE, "rules"))
                  if f.startswith("c") and f.endswith(".py"))
   mods = {}
   for n in names:
-    if prop and n != prop.lower():
+    base = n.split("_")[0]
+    if prop and base != prop.lower():
       continue
-    mods[n.upper()] = importlib.import_module(f"rules.{n}")
+    m = importlib.import_module(f"rules.{n}")
+    if n == base:
+      mods[n.upper()] = m
   return mods
 
 
